@@ -85,3 +85,61 @@ Proof. vm_compute. reflexivity. Qed.
 Example C09_ex_error : compute ex_bad_status true = Err.
 Proof. vm_compute. reflexivity. Qed.
 Print Assumptions C09_dispatch_from_source.
+
+(* ==== At the status readers ===================================================
+   statusreaders.NewDefaultStatusReader (Model/KStatusReader.v) wraps Compute.
+   A reader call returns a ResourceStatus (`Some r`) or (nil, err) (`None`);
+   the model has no panic constructor because the only pointer the readers
+   dereference is Compute's *Result, and each reader returns through
+   errResourceToResourceStatus first when Compute's error is non-nil.  Status
+   range as the code has it: the four statuses of Compute, plus Unknown
+   (exactly when the Error field is set: Compute error, unusable selector,
+   failed list call) and NotFound (only when the list call of a listing reader
+   answers IsNotFound; the Error field is then empty).  (nil, err) happens only
+   for a context error of a list call, at the object or below it. *)
+From CliUtils Require Import Model.KStatusReader Proofs.KStatusReaderProofs.
+
+Theorem C09_reader_total_shape : forall (j : jv) (w sel : bool) (lst : lerr) (kids : list node),
+  let n := Node j w sel lst kids in
+  (read_top n = None -> ctx_in n = true) /\
+  (forall r, read_top n = Some r ->
+     wf_rres r = true /\
+     (rr_error r = true <-> rr_status r = Unknown) /\
+     rr_id r = id_of j /\
+     (rr_status r = NotFound -> reader_of j <> RGeneric /\ sel = true /\ lst = LNotFound) /\
+     (reader_of j = RGeneric \/ (sel = true /\ lst = LOk) ->
+        (compute j w = Err -> rr_status r = Unknown /\ rr_error r = true) /\
+        (reader_of j = RGeneric -> rr_gen r = []) /\
+        (reader_of j <> RGeneric ->
+           all_some (map (read (child_kind (reader_of j))) kids) = Some (rr_gen r)))).
+Proof. exact reader_total_shape. Qed.
+
+(* ReadStatus by identifier: the lookup's error classes, else the reader's own result *)
+Theorem C09_reader_by_id_shape : forall (lk : lerr) (id : rid) (r : option rres) (out : rres),
+  by_id lk id r = Some out ->
+  (lk = LOk /\ r = Some out) \/
+  (lk = LNotFound /\ out = RRes id NotFound false MsgNotFound []) \/
+  (lk = LErr /\ out = RRes id Unknown true MsgEmpty []).
+Proof. exact by_id_shape. Qed.
+
+Print Assumptions C09_reader_total_shape.
+Print Assumptions C09_reader_by_id_shape.
+
+(* non-vacuity: a ReplicaSet whose status.conditions is a string (Compute
+   errs) with a crash-looping pod is Unknown with the error, the pod listed
+   as generated resource (the input on which a reader that looks at the pods
+   before it looks at Compute's error dereferences nil) *)
+Definition exr_rs_bad : jv :=
+  JObj [("apiVersion", JStr "apps/v1"); ("kind", JStr "ReplicaSet");
+        ("metadata", JObj [("name", JStr "rs"); ("namespace", JStr "ns")]);
+        ("spec", JObj [("replicas", JInt 1)]);
+        ("status", JObj [("conditions", JStr "x")])].
+Example C09_ex_reader_compute_error :
+  compute exr_rs_bad false = Err /\
+  read_top (Node exr_rs_bad false true LOk [Node ex_pod_crash false true LOk []])
+  = Some (RRes ("ns", "apps", "ReplicaSet", "rs") Unknown true MsgEmpty
+               [RRes ("", "", "Pod", "") Failed false MsgCompute []]).
+Proof. split; vm_compute; reflexivity. Qed.
+Example C09_ex_reader_ctx :
+  read_top (Node exr_rs_bad false true LCtx []) = None /\ ctx_in (Node exr_rs_bad false true LCtx []) = true.
+Proof. split; reflexivity. Qed.
